@@ -15,7 +15,7 @@ LEVEL = "exploration"
 SHARDS = {"quick": 8, "thorough": 16}
 RULE = ("req: _LanProtocolV3._encode_encrypted_request(counter, payload) under a session key decoded by the independent V3 "
         "decoder (type 6, counter, payload, pad == (16-(len+2)%16)%16, size == len+pad+32, total == size+8, valid SHA-256 tag); "
-        "resp: packets from the independent encoder decoded by _process_packet; tamper: every single-bit flip of one response "
+        "resp: packets from the independent encoder decoded by _process_packet, directly or as they arrive on a connection (through the stream framer's data_received, whole or cut in two, then taken from the receive queue); tamper: every single-bit flip of one response "
         "per residue must make LAN._read semantics (_process_packet then _Packet.decode) raise ProtocolError; wire: LAN.send on an "
         "authenticated connection with arbitrary frame lengths (optionally with the request leaving just before the 12 h key lifetime ends and the response arriving just after); half of the codec cases reuse one long-lived protocol object per key instead of a fresh one. Exhaustive payload lengths 0..300 (all 16 residues) and counters "
         "0..4095; keys random. Non-trivial: (len+2)%16==0 or len in {0,1} or counter in {0,255,256,4095} or a tamper case. "
@@ -94,8 +94,28 @@ def check_case(case: dict):
             padb = (padb + bytes(16))[:pad]
         pkt = rc.v3_encode_response(key, cnt, payload, padbytes=padb)
         try:
-            with memoryview(pkt) as mv:
-                got = _proto(key, case.get("shared", False))._process_packet(mv)
+            if case.get("via") == "stream":
+                # as on a connection: the bytes arrive through the stream framer (whole, or in two segments) and the
+                # packet is taken from the receive queue
+                class _T:
+                    def get_extra_info(self, *_a):
+                        return ("10.0.0.1", 6444)
+
+                    def is_closing(self):
+                        return False
+                proto = _proto(key, False)
+                proto.connection_made(_T())
+                cut = case.get("cut", 0) % (len(pkt) + 1)
+                for seg in ((pkt[:cut], pkt[cut:]) if 0 < cut < len(pkt) else (pkt,)):
+                    proto.data_received(seg)
+                if proto._queue.qsize() != 1:
+                    return ("resp/not-delivered", f"response with payload len {len(payload)} ({len(pkt)} bytes on the wire, cut at {cut}) was not delivered by the stream framer "
+                            f"({proto._queue.qsize()} packets queued)")
+                with memoryview(proto._queue.get_nowait()) as mv:
+                    got = proto._process_packet(mv)
+            else:
+                with memoryview(pkt) as mv:
+                    got = _proto(key, case.get("shared", False))._process_packet(mv)
         except Exception as e:
             return (f"resp/raises/{type(e).__name__}", f"_process_packet raised {e!r} for payload len {len(payload)} pad {pad}")
         if got != payload:
@@ -177,7 +197,7 @@ def _run_one(ctx, case):
     if kind in ("req", "resp"):
         L = len(case["payload"]) // 2
         ctx.label(f"residue={(L + 2) % 16}")
-        key = hash((kind, case["payload"], case["key"], case["counter"]))
+        key = hash((kind, case["payload"], case["key"], case["counter"], case.get("via"), case.get("cut")))
     elif kind == "tamper":
         key = hash((kind, case["frame"], case["key"], case["counter"], case["bit"]))
     else:
@@ -202,7 +222,11 @@ def run(ctx) -> None:
                 case = {"kind": kind, "key": _key(k).hex(), "payload": _payload(L, k).hex(), "counter": (L * 37 + k * 1001) & 0xFFF,
                         "shared": k % 2 == 1}
                 ctx.check(case, lambda c: _run_one(ctx, c))
-    ctx.sweep("payload length 0..300 x keys x {req,resp}", n * 2, True)
+            # the same response as it arrives on a connection: through the stream framer, whole and cut in two
+            for cut in (0, 1 + (L * 7 + k) % (L + 40)):
+                case = {"kind": "resp", "key": _key(k).hex(), "payload": _payload(L, k).hex(), "counter": (L * 37 + k * 1001) & 0xFFF, "via": "stream", "cut": cut}
+                ctx.check(case, lambda c: _run_one(ctx, c))
+    ctx.sweep("payload length 0..300 x keys x {req,resp,resp through the stream framer}", n * 4, True)
     # payloads that merely look like a V2 packet (marker, a length field that disagrees with the real length, two packets
     # back to back): the V3 layer must deliver the payload as sent, whatever it contains
     z = 0
@@ -263,7 +287,8 @@ def run(ctx) -> None:
         "payload": hexb(st.one_of(st.integers(0, 300).flatmap(lambda n: st.binary(min_size=n, max_size=n)),
                                   st.integers(0, 20).map(lambda k: bytes(16 * k + 14)), gens.frames_bytes(300))),
         "counter": st.one_of(st.integers(0, 4095), st.sampled_from([0, 255, 256, 4095, 4096, 65535])),
-        "padbytes": hexb(st.binary(min_size=16, max_size=16)), "shared": st.booleans()})
+        "padbytes": hexb(st.binary(min_size=16, max_size=16)), "shared": st.booleans()},
+        optional={"via": st.sampled_from(["direct", "stream", "stream"]), "cut": st.integers(0, 400)})
     wire_cases = st.fixed_dictionaries({
         "kind": st.just("wire"), "key": hexb(gens.keys32()), "id": gens.device_ids(64),
         "frame": hexb(gens.frames_bytes(255)), "replies": st.lists(hexb(gens.frames_bytes(100)), min_size=1, max_size=3),
